@@ -739,10 +739,17 @@ asn_double2REAL(REAL_t *st, double dbl_value) {
 		uint8_t *d;
 
 		bmsign = 0x80 | ((s[1] >> 1) & 0x40);	/* binary mask & - */
+#ifdef	VLM_ASN1C_VERIF	/* Same loop without forming a pointer before dbl_value */
+		for(mstop = d = dscr, s++; s > start; d++) {
+			*d = *--s;
+			if(*d) mstop = d;
+		}
+#else
 		for(mstop = d = dscr; s >= start; d++, s--) {
 			*d = *s;
 			if(*d) mstop = d;
 		}
+#endif	/* VLM_ASN1C_VERIF */
     }
 
 	/* Remove parts of the exponent, leave mantissa and explicit 1. */
